@@ -376,14 +376,14 @@ def _replay_scatter(n, half=False, arrays=False):
 
 
 # ---------------------------------------------------------------- similarity_clustermap
-def _body_scm(single):
+def _body_scm(single, alens=(1, 1, 1), blens=(1, 1, 1)):
     def body():
         from pyrepseq import plotting
         from models import pd_model, plot_model, sp_model
         from models.np_model import NDArray
         from vlib import sym, symops as so
-        a = [sym.sym_str(f"a{i}", 1, lo=1) for i in range(3)]
-        b = [sym.sym_str(f"b{i}", 1, lo=1) for i in range(3)]
+        a = [sym.sym_str(f"a{i}", alens[i], lo=1) for i in range(3)]
+        b = [sym.sym_str(f"b{i}", blens[i], lo=1) for i in range(3)]
         df = pd_model.DataFrame({"cdr3a": list(a), "cdr3b": list(b), "meta": ["x", "y", "x"]}, index=[7, 8, 9])
         plot_model.reset()
         kw = dict(beta_column=None) if single else {}
@@ -478,6 +478,9 @@ def conditions(tier):
     out.append(Condition("C19/density_scatter/n=2/half-integer-arrays", _body_scatter(2, -1, 3, half=True, arrays=True), _replay_scatter(2, half=True, arrays=True),
                          budget=600, models=M, bounds="2 symbolic points on a half-integer grid (-0.5 .. 1.5), given as arrays"))
     for single in (False, True):
+        if not single:      # chains of different lengths: a tail of one alpha chain may equal the head of another row's beta chain
+            out.append(Condition("C19/similarity_clustermap/paired/alpha=3,1,1/beta=1,3,1", _body_scm(False, (3, 1, 1), (1, 3, 1)), _replay_scm(False),
+                                 budget=900, models=M, setup=_setup, bounds="3-row paired table, alpha chains of lengths 3,1,1 and beta chains of lengths 1,3,1"))
         out.append(Condition("C19/similarity_clustermap/" + ("single" if single else "paired"), _body_scm(single), _replay_scm(single),
                              budget=600, models=M, setup=_setup, bounds="3-row table, free one-letter CDR3s"))
     return out
